@@ -73,7 +73,7 @@ def rule_docsig(repo, rid, modules, exempt=()):
                      'exist: a positional call written from the documentation binds what the documentation says', floor=1)
     n = 0
     for m in modules:
-        for f in repo.module(m).functions.values():
+        for f in repo.functions_view(m):
             da, problems = judge(f.node)
             if da is None:
                 continue
